@@ -542,10 +542,15 @@ package mqtt
 //@ ensures !closed(ch) && cap(ch) == 1
 //@ ensures[C12,C10] len(ch) == 1 && qat(ch, 0) != nil && !closed(qat(ch, 0)) && len(qat(ch, 0)) == 0 && (qat(ch, 0) == old(qat(ch, 0)) || fresh(qat(ch, 0)))
 
+// breakAll: every registered request is answered with an ErrBreak-class error and removed (range over the
+// map: the keys yielded so far are gone, the range ends when every present key was yielded).
 //@ func mqtt.(*unorderedTxs).breakAll
-//@ unverified
-//@ modifies region("map.map[uint16]mqtt.unorderedCallback"), region("map.len"), region("chan.len.error"), region("chan.head.error"), region("chan.q.error")
-//@ ensures forall(k, !has(txs.perPacketID, k))
+//@ requires txs.perPacketID != nil
+//@ modifies region("map.map[uint16]mqtt.unorderedCallback"), region("map.len"), region("chan.len.error"), region("chan.head.error"), region("chan.q.error"), region("ghost.visited")
+//@ loop 1: modifies region("map.map[uint16]mqtt.unorderedCallback"), region("map.len"), region("chan.len.error"), region("chan.head.error"), region("chan.q.error"), region("ghost.visited")
+//@ loop 1: invariant forall(k, visited(txs.perPacketID, k) ==> !has(txs.perPacketID, k))
+//@ at[C10,C11] send done#1: assert Is(v, ErrBreak)
+//@ ensures[C10,C11] forall(k, !has(txs.perPacketID, k))
 
 // toOffline: leave the connection; everything pending on it is released.
 //@ func mqtt.(*Client).toOffline
